@@ -26,6 +26,50 @@ class Degenerate(Exception):
     """division by zero or similar: no value to compare"""
 
 
+# ---------------------------------------------------------------------------------------------- first-order jets
+
+class Jet:
+    """value and gradient (exact): enough to read one gradient operator"""
+    __slots__ = ('v', 'g')
+
+    def __init__(self, v, g=None):
+        self.v = Fraction(v); self.g = tuple(Fraction(x) for x in (g if g is not None else (0, 0)))
+
+    @staticmethod
+    def of(x):
+        if isinstance(x, numpy.ndarray) and x.ndim == 0: x = x[()]
+        return x if isinstance(x, Jet) else Jet(x)
+
+    def __add__(self, o): o = Jet.of(o); return Jet(self.v + o.v, [a + b for a, b in zip(self.g, o.g)])
+    __radd__ = __add__
+    def __neg__(self): return Jet(-self.v, [-a for a in self.g])
+    def __sub__(self, o): return self + (-Jet.of(o))
+    def __rsub__(self, o): return Jet.of(o) + (-self)
+    def __mul__(self, o): o = Jet.of(o); return Jet(self.v * o.v, [a * o.v + self.v * b for a, b in zip(self.g, o.g)])
+    __rmul__ = __mul__
+    def __truediv__(self, o):
+        o = Jet.of(o)
+        return Jet(self.v / o.v, [(a * o.v - self.v * b) / (o.v * o.v) for a, b in zip(self.g, o.g)])
+    def __rtruediv__(self, o): return Jet.of(o) / self
+    def ipow(self, e):
+        if e == 0: return Jet(1)
+        return Jet(self.v ** e, [e * self.v ** (e - 1) * a for a in self.g])
+    def __eq__(self, o): o = Jet.of(o); return self.v == o.v and self.g == o.g
+    def __hash__(self): return hash((self.v, self.g))
+    def __abs__(self): return max([abs(self.v)] + [abs(a) for a in self.g])
+    def __float__(self): return float(self.v)
+    def __repr__(self): return 'Jet(%s;%s)' % (self.v, ','.join(map(str, self.g)))
+
+
+def _div(a, b):
+    if isinstance(b, Jet):
+        if b.v == 0: raise Degenerate('division by zero')
+        return Jet.of(a) / b
+    if b == 0: raise Degenerate('division by zero')
+    if isinstance(a, Jet): return a / b
+    return Fraction(a) / b
+
+
 # ---------------------------------------------------------------------------------------------- context
 
 class Context:
@@ -61,11 +105,44 @@ class Context:
         return None if v is None else v.shape
 
 
+class SidedContext(Context):
+    """every variable is  c0 + c1 x0 + c2 x1 + c3 x0 x1 + J[element]  with integer coefficient arrays, on the
+    two-element mesh rectilinear([2, 1]); it is read at the interface point X = (1, 1/2) from either side"""
+    X = (Fraction(1), Fraction(1, 2))
+
+    def __init__(self, rng):
+        super().__init__(rng)
+        self.coef = {}
+        for n, arr in self.vars.items():
+            cs = [numpy.array([rng.choice([0, 1, -1, 2, -2, 3]) for _ in range(arr.size)], dtype=object).reshape(arr.shape) for _ in range(2)]
+            cs.append(numpy.zeros(arr.shape, dtype=int).astype(object))    # no bilinear term: keeps the real evaluation cheap
+            js = [numpy.array([rng.choice([0, 1, -1, 2, 4]) for _ in range(arr.size)], dtype=object).reshape(arr.shape) for _ in range(2)]
+            self.coef[n] = (arr, cs[0], cs[1], cs[2], js[0], js[1])
+        self.normal = None      # filled with the evaluated normal of side 0 (a leaf: not what C19 is about)
+        self.elem_of_side = (0, 1)
+
+    def jets(self, name, side):
+        c0, c1, c2, c3, j0, j1 = self.coef[name]
+        x0, x1 = self.X
+        e = self.elem_of_side[side]
+        out = numpy.empty(c0.shape, dtype=object)
+        for i in itertools.product(*map(range, c0.shape)):
+            v = c0[i] + c1[i] * x0 + c2[i] * x1 + c3[i] * x0 * x1 + (j0, j1)[e][i]
+            out[i] = Jet(v, (c1[i] + c3[i] * x1, c2[i] + c3[i] * x0))
+        return out
+
+
 # ---------------------------------------------------------------------------------------------- generator
 
 class Gen:
-    def __init__(self, rng, ctx, maxdepth=6, sides=False, gradient=False):
-        self.rng, self.ctx, self.maxdepth, self.sides, self.gradient = rng, ctx, maxdepth, sides, gradient
+    def __init__(self, rng, ctx, maxdepth=6, sides=False, gradient=False, v1=False):
+        self.rng, self.ctx, self.maxdepth, self.sides, self.gradient, self.v1 = rng, ctx, maxdepth, sides, gradient, v1
+        self.budget = 20
+
+    def top(self, free, depth):
+        """a fresh expression with a random size budget (number of items)"""
+        self.budget = self.rng.choice([2, 4, 6, 8, 12, 16, 24, 40])
+        return self.expr(free, depth, set())
 
     def fresh(self, avoid, n=None):
         c = [l for l in LETTERS if l not in avoid]
@@ -74,7 +151,7 @@ class Gen:
     def expr(self, free, depth, avoid):
         """free: list of (letter, length); returns (ast, summed letters)"""
         r = self.rng
-        nterms = r.choice([1, 1, 1, 2, 2, 3]) if depth > 0 else 1
+        nterms = r.choice([1, 1, 1, 2, 2, 3]) if depth > 0 and self.budget > 0 else 1
         neg = r.random() < .2
         terms, summed = [], set()
         for k in range(nterms):
@@ -85,7 +162,7 @@ class Gen:
         return ('expr', neg, terms), summed
 
     def frac(self, free, depth, avoid):
-        if depth > 0 and self.rng.random() < .2:
+        if depth > 0 and self.budget > 0 and self.rng.random() < .2:
             n, s1 = self.term(free, depth - 1, avoid)
             d, s2 = self.term([], depth - 1, avoid | s1 | {l for l, _ in free})
             return ('frac', n, d), s1 | s2
@@ -94,12 +171,13 @@ class Gen:
     def term(self, free, depth, avoid):
         r = self.rng
         k = r.choice([1, 1, 2, 2, 3]) if depth > 0 else r.choice([1, 1, 2])
+        if self.budget <= 0: k = 1
         slots = [[] for _ in range(k)]
         for ix in free:
             slots[r.randrange(k)].append(ix)
         avoid = set(avoid) | {l for l, _ in free}
         mine = set()
-        for _ in range(r.choice([0, 0, 1, 1, 2])):
+        for _ in range(r.choice([0, 0, 1, 1, 2]) if self.budget > 0 else 0):
             l = self.fresh(avoid)
             if l is None: break
             n = r.choice([2, 2, 3])
@@ -108,7 +186,7 @@ class Gen:
             slots[a].append((l, n)); slots[b].append((l, n))
         factors = []
         if r.random() < .25:
-            factors.append(('num', r.choice(['2', '3', '1', '0', '10', '1.5', '.5', '2.', '1e1', '2.5e-1', '1_0', '007'])))
+            factors.append(('num', r.choice(['2', '3', '1', '0', '10', '1.5', '.5', '2.', '1e1', '2.5e-1'] + ([] if self.v1 else ['1_0', '007']))))
         summed = set(mine)
         for sl in slots:
             r.shuffle(sl)
@@ -128,16 +206,18 @@ class Gen:
 
     def item(self, idx, depth, avoid):
         r = self.rng
+        self.budget -= 1
+        if self.budget <= 0: depth = 0
         letters = [l for l, _ in idx]
         dups = {l for l in letters if letters.count(l) > 1}
         opts = ['var', 'var']
         if depth > 0 and not dups:
             opts += ['paren', 'paren', 'call0']
             if self.sides: opts += ['jump', 'mean']
-            if any(n == 2 for _, n in idx): opts += ['call1']
-            if any(n == 3 for _, n in idx): opts += ['call1w']
+            if any(n == 2 for _, n in idx) and not self.v1: opts += ['call1']
+            if any(n == 3 for _, n in idx) and not self.v1: opts += ['call1w']
             if self.gradient and any(n == 2 for _, n in idx): opts += ['grad', 'grad']
-            if r.random() < .3: opts += ['call1num', 'call2']
+            if r.random() < .3 and not self.v1: opts += ['call1num', 'call2']
         if depth > 0 and len(dups) == 1 and letters.count(next(iter(dups))) == 2 and dict(idx)[next(iter(dups))] == 2:
             opts += ['calltrace', 'calltrace']
         if self.sides and not idx: opts += ['normalsq']
@@ -171,7 +251,12 @@ class Gen:
             cand = [ix for ix in idx if ix[1] == n]
             gi = r.choice(cand)
             rest = list(idx); rest.remove(gi)
-            e, s = self.expr(rest, sub, avoid | {gi[0]})
+            saved = self.sides, self.gradient
+            if kind == 'grad': self.sides = self.gradient = False     # first-order jets: nothing non-smooth below a gradient
+            try:
+                e, s = self.expr(rest, sub, avoid | {gi[0]})
+            finally:
+                self.sides, self.gradient = saved
             return ('call', {'call1': 'g', 'call1w': 'w', 'grad': '∇'}[kind], gi[0], e), s
         if kind == 'call1num':
             e, s = self.expr(list(idx), sub, avoid)
@@ -183,8 +268,14 @@ class Gen:
         if kind == 'calltrace':
             d = next(iter(dups))
             rest = list(idx); rest.remove((d, 2))
-            e, s = self.expr(rest, sub, avoid | {d})
-            return ('call', r.choice(['g', '∇'] if self.gradient else ['g']), d, e), s | {d}
+            name = r.choice(['g', '∇'] if self.gradient else ['g'])
+            saved = self.sides, self.gradient
+            if name == '∇': self.sides = self.gradient = False
+            try:
+                e, s = self.expr(rest, sub, avoid | {d})
+            finally:
+                self.sides, self.gradient = saved
+            return ('call', name, d, e), s | {d}
         if kind == 'normalsq':
             l = self.fresh(avoid)
             if l is None: return ('var', 's', ''), set()
@@ -219,6 +310,12 @@ def pr(node, st=None, v1=False):
     if k == 'var':
         return node[1] + ('_' + node[2] if node[2] else '')
     if k == 'call':
+        if v1 and node[1] == '∇':
+            a = node[3]
+            if a[0] == 'expr' and not a[1] and len(a[2]) == 1 and a[2][0][1][0] == 'term' and len(a[2][0][1][1]) == 1 and a[2][0][1][1][0][0] == 'var':
+                var = a[2][0][1][1][0]
+                return var[1] + '_' + var[2] + ',' + node[2]
+            return '(' + pr(a, st, v1) + ')_,' + node[2]
         return node[1] + ('_' + node[2] if node[2] else '') + '(' + st.pad() + pr(node[3], st, v1) + st.pad() + ')'
     if k == 'paren':
         return '(' + st.pad() + pr(node[1], st, v1) + st.pad() + ')'
@@ -348,6 +445,14 @@ class Reader:
         return self.ctx.vars.get(name)
 
     def call(self, name, arr):
+        if name in ('abs', 'sign'):
+            out = numpy.empty(arr.shape, dtype=object)
+            for i in itertools.product(*map(range, arr.shape)):
+                u = arr[i]; v = u.v if isinstance(u, Jet) else u
+                if isinstance(u, Jet) and v == 0 and any(u.g): raise Degenerate('kink')
+                sg = (v > 0) - (v < 0)
+                out[i] = (u * sg if name == 'abs' else (Jet(sg) if isinstance(u, Jet) else Fraction(sg)))
+            return (), out
         if name not in self.ctx.fns: return None
         gen, fn = self.ctx.fns[name]
         out = numpy.empty(arr.shape + gen, dtype=object)
@@ -356,8 +461,16 @@ class Reader:
                 out[i + k] = fn(arr[i], k)
         return gen, out
 
-    def jump(self, node): raise Reject('no sides in this context')
-    def mean(self, node): raise Reject('no sides in this context')
+    def flipped(self):
+        return self     # constants look the same from both sides
+
+    def jump(self, node):
+        a, b = self.read(node), self.flipped().read(node)
+        return Val(a.labels, _o(b.arr - a.arr), a.summed)
+
+    def mean(self, node):
+        a, b = self.read(node), self.flipped().read(node)
+        return Val(a.labels, _o((a.arr + b.arr) * Fraction(1, 2)), a.summed)
 
     def indexed(self, arr, labels0, idx, summed):
         """attach index entries `idx` to the trailing len(idx) axes of arr (leading axes carry labels0)"""
@@ -400,7 +513,7 @@ class Reader:
         if k == 'pow':
             base = self.read(node[1])
             if node[2][0] == 'int':
-                e = Val([], numpy.array(Fraction(node[2][1]), dtype=object), ())
+                e = Val([], _o(Fraction(node[2][1])), ())
             else:
                 e = self.read(node[2][1])
             if e.labels: raise Reject('exponent must be a scalar')
@@ -422,22 +535,21 @@ class Reader:
             if d.labels: raise Reject('denominator must be a scalar')
             if n.summed & d.summed or set(n.labels) & (n.summed | d.summed): raise Reject('index occurs more than twice')
             dv = d.arr[()]
-            if dv == 0: raise Degenerate('division by zero')
             out = numpy.empty(n.arr.shape, dtype=object)
             for i in itertools.product(*map(range, n.arr.shape)):
-                out[i] = Fraction(n.arr[i]) / dv
+                out[i] = _div(n.arr[i], dv)
             return Val(n.labels, out, n.summed | d.summed)
         if k == 'expr':
             vals = [self.read(t) for _, t in node[2]]
             first = vals[0]
-            tot = -first.arr if node[1] else first.arr
+            tot = _o(-first.arr) if node[1] else first.arr
             summed = set(first.summed)
             for (sub, _), v in zip(node[2][1:], vals[1:]):
                 if set(v.labels) != set(first.labels) or len(v.labels) != len(first.labels):
                     raise Reject('terms have different indices')
                 a = v.arr.transpose([v.labels.index(l) for l in first.labels])
                 if a.shape != first.arr.shape: raise Reject('terms have different lengths')
-                tot = tot - a if sub else tot + a
+                tot = _o(tot - a) if sub else _o(tot + a)
                 summed |= v.summed
             return Val(first.labels, _o(tot), summed)
         raise AssertionError(k)
@@ -450,7 +562,15 @@ def _o(x):
 
 
 def _pow(b, e):
+    if isinstance(e, Jet):
+        if any(e.g): raise Degenerate('exponent depends on position under a gradient')
+        e = e.v
     e = Fraction(e)
+    if isinstance(b, Jet):
+        if e.denominator != 1 or abs(e) > 24 or abs(b.v.numerator) > 10**9 or b.v.denominator > 10**9: raise Degenerate('power')
+        if e < 0 and b.v == 0: raise Degenerate('zero to a negative power')
+        if e <= 0 and b.v == 0 and any(b.g): raise Degenerate('gradient of 0^0')
+        return b.ipow(int(e))
     if e.denominator != 1: raise Degenerate('non-integer exponent')
     e = int(e)
     if e < 0 and b == 0: raise Degenerate('zero to a negative power')
@@ -462,6 +582,92 @@ def _pow(b, e):
 def aligned(val, order):
     """the array of `val` with axes in the order of the letters `order`"""
     return val.arr.transpose([val.labels.index(l) for l in order])
+
+
+# ---------------------------------------------------------------------------------------------- AST-level rule violations
+
+def _nodes(node, kinds, acc):
+    if node[0] in kinds: acc.append(node)
+    k = node[0]
+    if k == 'call': _nodes(node[3], kinds, acc)
+    elif k in ('paren', 'jump', 'mean'): _nodes(node[1], kinds, acc)
+    elif k == 'pow':
+        _nodes(node[1], kinds, acc)
+        if node[2][0] == 'paren': _nodes(node[2][1], kinds, acc)
+    elif k == 'term':
+        for f in node[1]: _nodes(f, kinds, acc)
+    elif k == 'frac': _nodes(node[1], kinds, acc); _nodes(node[2], kinds, acc)
+    elif k == 'expr':
+        for _, t in node[2]: _nodes(t, kinds, acc)
+    return acc
+
+
+def _replace(node, old, new):
+    """copy of the tree with the node `old` (identity) replaced by `new`"""
+    if node is old: return new
+    k = node[0]
+    R = lambda x: _replace(x, old, new)
+    if k in ('num', 'var'): return node
+    if k == 'call': return ('call', node[1], node[2], R(node[3]))
+    if k in ('paren', 'jump', 'mean'): return (k, R(node[1]))
+    if k == 'pow': return ('pow', R(node[1]), ('paren', R(node[2][1])) if node[2][0] == 'paren' else node[2])
+    if k == 'term': return ('term', [R(f) for f in node[1]])
+    if k == 'frac': return ('frac', R(node[1]), R(node[2]))
+    if k == 'expr': return ('expr', node[1], [(sub, R(t)) for sub, t in node[2]])
+
+
+def violate(ast, rng, ctx):
+    """one AST-level change that typically breaks a documented rule (the reading decides)"""
+    kind = rng.choice(['rename-index', 'rename-index', 'swap-var', 'dup-factor', 'number-inside', 'drop-index', 'numeral', 'unknown-name',
+                       'vector-denominator', 'vector-exponent', 'extra-index', 'unknown-function', 'third-occurrence', 'third-occurrence',
+                       'sum-index-mismatch'])
+    if kind == 'third-occurrence':
+        cands = []
+        for t in _nodes(ast, ('term',), []):
+            letters = [c for f in t[1] for v in [f[1] if f[0] == 'pow' else f] if v[0] == 'var' for c in v[2] if c.isalpha()]
+            for l in sorted(set(letters)):
+                if letters.count(l) >= 2: cands.append((t, l))
+        if cands:
+            t, l = rng.choice(cands)
+            return kind, _replace(ast, t, ('term', t[1] + [('var', rng.choice(['a', 'c']), l)]))
+        kind = 'dup-factor'
+    if kind == 'sum-index-mismatch':
+        exprs = [e for e in _nodes(ast, ('expr',), []) if len(e[2]) > 1]
+        if exprs:
+            e = rng.choice(exprs)
+            extra = ('term', [('var', rng.choice(['a', 'c', 'A']), rng.choice(['i', 'q', 'ij']))])
+            return kind, _replace(ast, e, ('expr', e[1], e[2] + [(rng.random() < .5, extra)]))
+        kind = 'rename-index'
+    indexed = [n for n in _nodes(ast, ('var', 'call'), []) if n[2]]
+    used = sorted({c for n in indexed for c in n[2] if c.isalpha()}) or ['i']
+    if kind in ('rename-index', 'drop-index', 'numeral', 'extra-index') and indexed:
+        n = rng.choice(indexed); idx = n[2]; p = rng.randrange(len(idx))
+        if kind == 'rename-index': idx = idx[:p] + rng.choice(used + ['i', 'j']) + idx[p+1:]
+        elif kind == 'drop-index': idx = idx[:p] + idx[p+1:]
+        elif kind == 'numeral': idx = idx[:p] + rng.choice('0123') + idx[p+1:]
+        else: idx = idx[:p] + rng.choice(used) + idx[p:]
+        return kind, _replace(ast, n, n[:2] + (idx,) + n[3:])
+    variables = _nodes(ast, ('var',), [])
+    if kind in ('swap-var', 'unknown-name') and variables:
+        n = rng.choice(variables)
+        name = rng.choice(sorted(ctx.vars)) if kind == 'swap-var' else rng.choice(['q', 'zz', 'sin', 'f', 'x_'])
+        return kind, _replace(ast, n, ('var', name, n[2]))
+    calls = _nodes(ast, ('call',), [])
+    if kind == 'unknown-function' and calls:
+        n = rng.choice(calls)
+        return kind, _replace(ast, n, ('call', rng.choice(['q', 's', 'a', 'A']), n[2], n[3]))
+    terms = _nodes(ast, ('term',), [])
+    if terms:
+        t = rng.choice(terms)
+        if kind == 'dup-factor':
+            f = rng.choice(t[1]); return kind, _replace(ast, t, ('term', t[1] + [f]))
+        if kind == 'number-inside':
+            return kind, _replace(ast, t, ('term', t[1] + [('num', rng.choice(['2', '1.5']))]))
+        if kind == 'vector-denominator':
+            return kind, _replace(ast, t, ('paren', ('expr', False, [(False, ('frac', ('term', [('num', '1')]), t))])))
+        if kind == 'vector-exponent':
+            return kind, _replace(ast, t, ('term', [('pow', ('var', 's', ''), ('paren', ('expr', False, [(False, t)])))]))
+    return 'none', ast
 
 
 # ---------------------------------------------------------------------------------------------- edits
@@ -493,3 +699,33 @@ def random_edit(s, alphabet, rng):
         i = rng.randrange(n); return kind, s[:i] + rng.choice(alphabet) + s[i+1:]
     if n < 2: return 'ins', s + rng.choice(alphabet)
     i = rng.randrange(n - 1); return kind, s[:i] + s[i+1] + s[i] + s[i+2:]
+
+
+# ---------------------------------------------------------------------------------------------- two-sided reader
+
+class SidedReader(Reader):
+    def __init__(self, ctx, side=0):
+        super().__init__(ctx); self.side = side
+
+    def flipped(self):
+        return SidedReader(self.ctx, 1 - self.side)
+
+    def leaf(self, name):
+        if name == 'n':
+            out = numpy.empty((2,), dtype=object)
+            for k in range(2): out[k] = Jet(self.ctx.normal[k] * (1 if self.side == 0 else -1))
+            return out
+        if name == 'x':
+            out = numpy.empty((2,), dtype=object)
+            out[0] = Jet(self.ctx.X[0], (1, 0)); out[1] = Jet(self.ctx.X[1], (0, 1))
+            return out
+        if name not in self.ctx.coef: return None
+        return self.ctx.jets(name, self.side)
+
+    def call(self, name, arr):
+        if name == '∇':
+            out = numpy.empty(arr.shape + (2,), dtype=object)
+            for i in itertools.product(*map(range, arr.shape)):
+                for k in range(2): out[i + (k,)] = Jet(Jet.of(arr[i]).g[k])
+            return (2,), out
+        return super().call(name, arr)
